@@ -4,6 +4,10 @@
 //! the seed.  usage: harness <ID> <quick|thorough> <seed> <out-file>
 mod proto;
 mod parse;
+mod gen_enums;
+mod tree;
+mod treeparse;
+mod c01;
 mod c09;
 mod c10;
 mod c11;
@@ -12,6 +16,11 @@ mod c12;
 use proto::*;
 
 fn main() {
+    let t = std::thread::Builder::new().stack_size(1 << 30).spawn(real_main).unwrap();
+    t.join().unwrap();
+}
+
+fn real_main() {
     let args: Vec<String> = std::env::args().collect();
     if args.len() < 5 {
         eprintln!("usage: harness <ID> <quick|thorough> <seed> <out-file> [replay-request-file]");
@@ -34,6 +43,7 @@ fn main() {
             }
             let toks: Vec<&str> = req.split(' ').collect();
             let ok = match id {
+                "C01" | "C02" => c01::replay(&toks, &mut out, req),
                 "C09" => c09::replay(&toks, &mut out),
                 "C10" => c10::replay(&toks, &mut out),
                 "C11" => c11::replay(&toks, &mut out),
@@ -47,6 +57,8 @@ fn main() {
         }
     } else {
         match id {
+            "C01" => c01::generate(&mut rng, thorough, &mut out, false),
+            "C02" => c01::generate(&mut rng, thorough, &mut out, true),
             "C09" => c09::generate(&mut rng, thorough, &mut out),
             "C10" => c10::generate(&mut rng, thorough, &mut out),
             "C11" => c11::generate(&mut rng, thorough, &mut out),
